@@ -229,6 +229,8 @@ class Report:
         self.assumptions = []
         self.notes = []
         self.findings = load_known(prop)
+        self.all_keys = {}
+        self.known_counts = {}
 
     def violation(self, what, replay, found_input=True, key=None):
         """record a violation unless it matches a known finding"""
@@ -236,8 +238,10 @@ class Report:
             if kf.get('status') == 'known' and kf_matches(kf, key, replay):
                 if kf['id'] not in [k['id'] for k in self.known_hits]:
                     self.known_hits.append(kf)
+                self.known_counts[kf['id']] = self.known_counts.get(kf['id'], 0) + 1
                 return False
-        self.violations.append((what, replay, found_input))
+        self.violations.append((what, replay, found_input, key))
+        self.all_keys[key] = self.all_keys.get(key, 0) + 1
         return True
 
     def finish(self):
@@ -247,7 +251,7 @@ class Report:
         for kf in self.known_hits:
             lines.append('KNOWN-FINDING: property=%s %s' % (self.prop, kf['what']))
         seen = set()
-        for what, replay, found in self.violations:
+        for what, replay, found, vkey in self.violations:
             blob = json.dumps(replay, sort_keys=True, default=str)
             h = hashlib.sha1(blob.encode()).hexdigest()[:10]
             if h in seen:
@@ -255,7 +259,7 @@ class Report:
             seen.add(h)
             path = os.path.join(VERIF, 'replays', '%s-%s.json' % (self.prop, h))
             with open(path, 'w') as f:
-                json.dump({'property': self.prop, 'what': what, 'replay': replay,
+                json.dump({'property': self.prop, 'what': what, 'key': vkey, 'replay': replay,
                            'failing_input_found': found, 'seed': self.seed, 'tier': self.tier},
                           f, indent=1, default=str)
             lines.append('VIOLATION property=%s replay=%s%s' % (
@@ -265,7 +269,7 @@ class Report:
         ev = {'property_id': self.prop, 'tier': self.tier, 'seed': self.seed, 'level': 'proof',
               'coverage': self.cov, 'assumptions': self.assumptions,
               'wall_s': round(time.time() - self.t0, 2), 'violations': len(seen),
-              'known_findings_hit': [k['id'] for k in self.known_hits], 'notes': self.notes}
+              'known_findings_hit': self.known_counts, 'violation_keys': self.all_keys, 'notes': self.notes}
         with open(os.path.join(VERIF, 'evidence', self.prop + '.json'), 'w') as f:
             json.dump(ev, f, indent=1, default=str)
         for l in lines:
